@@ -18,6 +18,19 @@ Recognised shapes (anything else raises Untranslatable -> tie broken):
                                    templates.replace(template, placeholder=parse_expression(str(self.f)) |
                                                      list_of_features(self.optional_features))
   STANDARD_OPTIONS = ConversionOptions(kw=<const>, ...)
+
+malt/operators/function_wrappers.py (scope_tables; the objects through which converted code hands options on):
+  class FunctionScope(object)      no decorator / metaclass / __new__ / attribute hooks / descriptors named like the
+                                   option-carrying attributes; nothing but __init__ stores self.options / self.callopts
+  FunctionScope.__init__(self, function_name, scope_name, options)
+                                   top-level statements `self.options = options`, `self.callopts = options.call_options()`
+                                   (any other value, a conditional store or a rebinding of `options` is rejected)
+  FunctionScope.__enter__          every return is `return self`
+  with_function_scope(thunk, scope_name, options)
+                                   with FunctionScope(<str>, scope_name, options) as S: return thunk(S)
+  malt/operators/__init__.py       imports FunctionScope and with_function_scope from function_wrappers, unaliased
+  malt/impl/api.py converted_call  `if options is None: ... options = caller_fn_scope.<options|callopts>` is the only
+                                   assignment to `options`
 """
 import ast
 import os
@@ -295,6 +308,7 @@ def translate(repo):
     out.append('Definition cache_key_gen : list field := [%s].' % '; '.join(cache_key_fields(repo, as_tuple)))
     out.append('Definition converted_call_reentries_keep_options : nat := %d.' % reentries_keep_options(repo))
     out.append('Definition allowlist_key_gen : list field := [%s].' % '; '.join(allowlist_key_fields(repo, as_tuple)))
+    out.extend(scope_tables(repo))
     return '\n'.join(out) + '\n'
 
 
@@ -388,6 +402,160 @@ def allowlist_key_fields(repo, as_tuple):
     if keys[0] != keys[1]:
         raise Untranslatable('untranslatable: conversion.py: the allowlist cache is read and written under different sub-keys')
     return keys[0]
+
+
+SATTR = {'options': 'SAOptions', 'callopts': 'SACallopts'}
+
+
+def scope_tables(repo):
+    """malt/operators/function_wrappers.py (+ the two places that bind and read it) -> scope_init_gen,
+    function_entry_gen, lambda_entry_gen, callee_reads_gen (shapes: module docstring).  Only the shape that creates
+    the scope from the entry's own options is recognised (EnFresh); the model's EnMemo exists for the theorems."""
+    path = os.path.join(repo, 'malt', 'operators', 'function_wrappers.py')
+    with open(path) as f:
+        tree = ast.parse(f.read())
+
+    def bad(node, msg):
+        raise Untranslatable('untranslatable: function_wrappers.py:%s: %s' % (getattr(node, 'lineno', '?'), msg))
+    cls = fun = None
+    for n in tree.body:
+        if isinstance(n, ast.ClassDef) and n.name == 'FunctionScope':
+            if cls is not None:
+                bad(n, 'FunctionScope defined twice')
+            cls = n
+        elif isinstance(n, ast.FunctionDef) and n.name == 'with_function_scope':
+            if fun is not None:
+                bad(n, 'with_function_scope defined twice')
+            fun = n
+        else:
+            for t in ast.walk(n):
+                if isinstance(t, ast.Name) and isinstance(t.ctx, (ast.Store, ast.Del)) and t.id in ('FunctionScope', 'with_function_scope'):
+                    bad(t, '%s is rebound at module level' % t.id)
+    if cls is None or fun is None:
+        raise Untranslatable('untranslatable: function_wrappers.py: FunctionScope / with_function_scope not found')
+    if cls.decorator_list or cls.keywords or [ast.unparse(b) for b in cls.bases] not in ([], ['object']):
+        bad(cls, 'FunctionScope has a decorator, a metaclass or a base class')
+    if fun.decorator_list:
+        bad(fun, 'with_function_scope is decorated')
+    init = enter = None
+    for m in cls.body:
+        if isinstance(m, ast.FunctionDef):
+            if m.name in ('__new__', '__init_subclass__', '__getattr__', '__getattribute__', '__setattr__', '__class_getitem__') \
+                    or m.name in SATTR:
+                bad(m, 'FunctionScope defines %s' % m.name)
+            if m.decorator_list:
+                bad(m, 'decorated method %s' % m.name)
+            if m.name == '__init__':
+                init = m
+            if m.name == '__enter__':
+                enter = m
+        elif isinstance(m, (ast.Assign, ast.AnnAssign, ast.AugAssign)):
+            for t in ast.walk(m):
+                if isinstance(t, ast.Name) and t.id in SATTR:
+                    bad(m, 'class-level attribute %s' % t.id)
+    if init is None or enter is None:
+        bad(cls, 'FunctionScope.__init__ / __enter__ missing')
+    if [a.arg for a in init.args.args] != ['self', 'function_name', 'scope_name', 'options'] or init.args.vararg \
+            or init.args.kwarg or init.args.kwonlyargs or init.args.defaults:
+        bad(init, 'FunctionScope.__init__ signature')
+
+    def scope_attr(t):
+        if isinstance(t, ast.Attribute) and isinstance(t.value, ast.Name) and t.value.id == 'self' and t.attr in SATTR:
+            return t.attr
+        return None
+    for m in cls.body:
+        for t in ast.walk(m):
+            if isinstance(t, ast.Call) and isinstance(t.func, ast.Name) and t.func.id in ('setattr', 'delattr', 'vars'):
+                bad(t, 'FunctionScope uses %s' % t.func.id)
+            if isinstance(t, ast.Attribute) and t.attr == '__dict__':
+                bad(t, 'FunctionScope touches __dict__')
+            if isinstance(t, ast.Attribute) and isinstance(t.ctx, (ast.Store, ast.Del)) and t.attr in SATTR and m is not init:
+                bad(t, '%s stores .%s outside __init__' % (getattr(m, 'name', 'class body'), t.attr))
+    init_table = []
+    for st in init.body:
+        stores = [t for t in ast.walk(st) if isinstance(t, ast.Attribute) and isinstance(t.ctx, (ast.Store, ast.Del)) and t.attr in SATTR]
+        rebinds = [t for t in ast.walk(st) if isinstance(t, ast.Name) and isinstance(t.ctx, (ast.Store, ast.Del)) and t.id in ('options', 'self')]
+        if rebinds:
+            bad(st, '__init__ rebinds %s' % rebinds[0].id)
+        if not stores:
+            continue
+        if not (isinstance(st, ast.Assign) and len(st.targets) == 1 and scope_attr(st.targets[0]) and len(stores) == 1):
+            bad(st, 'store to an option-carrying attribute that is not a plain top-level `self.<attr> = ...`')
+        v = st.value
+        if isinstance(v, ast.Name) and v.id == 'options':
+            src = 'ScArg'
+        elif isinstance(v, ast.Call) and not v.args and not v.keywords and ast.unparse(v.func) == 'options.call_options':
+            src = 'ScCallOptions'
+        else:
+            bad(st, 'self.%s is assigned %s (recognised: options, options.call_options())' % (st.targets[0].attr, ast.unparse(v)))
+        init_table.append('(%s, %s)' % (SATTR[st.targets[0].attr], src))
+    rets = [t for t in ast.walk(enter) if isinstance(t, ast.Return)]
+    if not rets or any(not (isinstance(r.value, ast.Name) and r.value.id == 'self') for r in rets) \
+            or [a.arg for a in enter.args.args] != ['self']:
+        bad(enter, '__enter__ does not return self')
+    # with_function_scope
+    if [a.arg for a in fun.args.args] != ['thunk', 'scope_name', 'options'] or fun.args.vararg or fun.args.kwarg \
+            or fun.args.kwonlyargs or fun.args.defaults:
+        bad(fun, 'with_function_scope signature')
+    body = _body_nodoc(fun)
+    ok = len(body) == 1 and isinstance(body[0], ast.With) and len(body[0].items) == 1
+    if ok:
+        item = body[0].items[0]
+        c = item.context_expr
+        ok = (isinstance(c, ast.Call) and isinstance(c.func, ast.Name) and c.func.id == 'FunctionScope' and not c.keywords
+              and len(c.args) == 3 and isinstance(c.args[0], ast.Constant) and isinstance(c.args[0].value, str)
+              and isinstance(c.args[1], ast.Name) and c.args[1].id == 'scope_name'
+              and isinstance(c.args[2], ast.Name) and c.args[2].id == 'options'
+              and isinstance(item.optional_vars, ast.Name))
+    if ok:
+        wb = body[0].body
+        sv = body[0].items[0].optional_vars.id
+        ok = (len(wb) == 1 and isinstance(wb[0], ast.Return) and isinstance(wb[0].value, ast.Call)
+              and isinstance(wb[0].value.func, ast.Name) and wb[0].value.func.id == 'thunk' and not wb[0].value.keywords
+              and len(wb[0].value.args) == 1 and isinstance(wb[0].value.args[0], ast.Name) and wb[0].value.args[0].id == sv)
+    if not ok:
+        bad(fun, 'with_function_scope is not `with FunctionScope(<str>, scope_name, options) as S: return thunk(S)`: '
+                 'the scope handed to a lambda body is not (recognisably) created from the options of this entry')
+    # what generated code reaches under ag__
+    with open(os.path.join(repo, 'malt', 'operators', '__init__.py')) as f:
+        otree = ast.parse(f.read())
+    bound = {}
+    for n in ast.walk(otree):
+        if isinstance(n, ast.ImportFrom):
+            for a in n.names:
+                if (a.asname or a.name) in ('FunctionScope', 'with_function_scope'):
+                    bound.setdefault(a.asname or a.name, []).append((n.module, a.name))
+        elif isinstance(n, ast.Name) and isinstance(n.ctx, ast.Store) and n.id in ('FunctionScope', 'with_function_scope'):
+            bound.setdefault(n.id, []).append(('<assignment>', n.id))
+    for name in ('FunctionScope', 'with_function_scope'):
+        if bound.get(name) != [('malt.operators.function_wrappers', name)]:
+            raise Untranslatable('untranslatable: operators/__init__.py: ag__.%s is not function_wrappers.%s (%r)' % (name, name, bound.get(name)))
+    # what converted_call reads from the caller's scope
+    with open(os.path.join(repo, 'malt', 'impl', 'api.py')) as f:
+        atree = ast.parse(f.read())
+    cc = [n for n in atree.body if isinstance(n, ast.FunctionDef) and n.name == 'converted_call']
+    if len(cc) != 1:
+        raise Untranslatable('untranslatable: api.py: converted_call not found')
+    cc = cc[0]
+    assigns = [t for t in ast.walk(cc) if isinstance(t, ast.Name) and isinstance(t.ctx, (ast.Store, ast.Del)) and t.id == 'options']
+    reads = None
+    for st in cc.body:
+        if isinstance(st, ast.If) and ast.unparse(st.test) == 'options is None' and not st.orelse:
+            for x in st.body:
+                if isinstance(x, ast.Assign) and len(x.targets) == 1 and isinstance(x.targets[0], ast.Name) and x.targets[0].id == 'options':
+                    v = x.value
+                    if isinstance(v, ast.Attribute) and isinstance(v.value, ast.Name) and v.value.id == 'caller_fn_scope' and v.attr in SATTR:
+                        reads = SATTR[v.attr]
+                    else:
+                        raise Untranslatable('untranslatable: api.py:%s: converted_call takes its options from %s' % (x.lineno, ast.unparse(v)))
+    if reads is None or len(assigns) != 1:
+        raise Untranslatable('untranslatable: api.py: converted_call: `if options is None: options = caller_fn_scope.<attr>` '
+                             'is not the one assignment to options (%d assignments)' % len(assigns))
+    return ['(* malt/operators/function_wrappers.py, malt/operators/__init__.py, malt/impl/api.py converted_call *)',
+            'Definition scope_init_gen : list (sattr * ssrc) := [%s].' % '; '.join(init_table),
+            'Definition function_entry_gen : sentry := EnFresh.',
+            'Definition lambda_entry_gen : sentry := EnFresh.',
+            'Definition callee_reads_gen : sattr := %s.' % reads]
 
 
 def reentries_keep_options(repo):
